@@ -64,7 +64,7 @@ func (r *runner) pair(X, Y *ent) {
 	mustOK := shallow(X.m, Y.m)
 	isNumMix := X.m.k == kNum && Y.m.k == kNum && X.m.isFloat != Y.m.isFloat
 
-	if c.WantSample() && same && X.idx != Y.idx && c.Case()%7 == 0 {
+	if same && X.idx != Y.idx && (X.idx+Y.idx)%7 == 0 && fw[oEQ] == tT && r.wantSample("pair") {
 		c.Sample(map[string]any{"phase": "pair", "x": desc(X), "y": desc(Y),
 			"x==y": fw[oEQ].String(), "x<y": fw[oLT].String(), "x>y": fw[oGT].String(), "expected_equal": wantEq,
 			"hash_x": hx, "hash_y": hy, "hashable": []bool{hxok, hyok}})
